@@ -18,7 +18,17 @@ from . import common
 _counter = itertools.count()
 
 
+class Raw(str):
+    """a TLA+ expression passed through verbatim"""
+
+
+def tla_set(items):
+    return Raw('{' + ', '.join(sorted(set(tla_value(x) for x in items))) + '}')
+
+
 def tla_value(v):
+    if isinstance(v, Raw):
+        return str(v)
     if isinstance(v, bool):
         return 'TRUE' if v else 'FALSE'
     if isinstance(v, int):
@@ -35,6 +45,8 @@ def tla_value(v):
 
 
 def _simple(v):
+    if isinstance(v, Raw):
+        return False
     return isinstance(v, (bool, int, str)) or (
         isinstance(v, (set, frozenset)) and all(isinstance(x, (bool, int, str)) for x in v))
 
@@ -155,7 +167,7 @@ def run(module, consts=None, invariants=(), spec='Spec', properties=(), constrai
     if rc == 124:
         res['errors'].append('TLC timed out after %ss' % timeout)
     if not res['ok']:
-        res['lines'] = tail[-60:]
+        res['lines'] = tail[-400:]
     shutil.rmtree(wd, ignore_errors=True)
     return res
 
